@@ -103,6 +103,7 @@ func genRedefScenario(r *rng) (*scenario, *filterSpec, *filterSpec) {
 	// one scenario in ten: a target without any result, reached only through converters (the input filter admits the
 	// far ends of the chains only), the converter next to the target failing when the redefined function is called
 	forced := !sc.Subs && r.chance(1, 10)
+	noFin := false
 	var farEnds []int
 	if forced {
 		nOut, target.HasErr = 0, false
@@ -170,7 +171,7 @@ func genRedefScenario(r *rng) (*scenario, *filterSpec, *filterSpec) {
 	// one scenario in eight: a value is supplied under the name of a parameter but with another type, next to a
 	// converter from that type. The parameter stays an input of the redefined function (outside C08's premise of one
 	// type per name), and the value it is then called with must win over the option given to Redefine.
-	if !sc.Subs && !forced && r.chance(1, 8) {
+	if !sc.Subs && !forced && r.chance(1, 6) {
 		for _, l := range tIns {
 			if l.Name == "" || l.Ty >= tyL0 {
 				continue
@@ -178,8 +179,20 @@ func genRedefScenario(r *rng) (*scenario, *filterSpec, *filterSpec) {
 			t2 := (l.Ty + 1 + r.intn(5)) % 6
 			vid++
 			sc.Opts = append(sc.Opts, optSpecC{Kind: "named", Name: l.Name, Ty: t2, Vid: vid})
-			f := c.newConv(r, sc, []lab{{Ty: l.Ty}}, []lab{{Ty: t2}})
-			f.Script, f.Once = "ok", false
+			src := lab{Ty: t2}
+			if r.chance(1, 2) {
+				// the value carries a subtype and the converter takes it by name: with the name discount the way through
+				// the converter is the cheapest one even when planning (no user body may run for that)
+				sc.Opts[len(sc.Opts)-1].Kind, sc.Opts[len(sc.Opts)-1].Sub = "namedsub", "x"
+				src = lab{Name: l.Name, Ty: t2}
+				noFin = r.chance(2, 3)
+			}
+			f := c.newConv(r, sc, []lab{{Ty: l.Ty}}, []lab{src})
+			if src.Name != "" && r.chance(1, 2) {
+				f.Outs = []lab{{Name: l.Name, Ty: l.Ty}}
+				f.OForm = []string{"struct", "ptr"}[r.intn(2)]
+			}
+			f.Script, f.Once = "ok", r.chance(1, 3)
 			convIDs = append(convIDs, f.ID)
 			sc.Collide = true
 			break
@@ -221,6 +234,9 @@ func genRedefScenario(r *rng) (*scenario, *filterSpec, *filterSpec) {
 	}
 	if forced && len(farEnds) > 0 {
 		fin = &filterSpec{nest: r.intn(3), tys: farEnds}
+	}
+	if noFin {
+		fin = nil
 	}
 	if r.chance(1, 3) {
 		fout = &filterSpec{nest: []int{0, 0, 0, 1, 2, 3, 4}[r.intn(7)]}
@@ -310,6 +326,16 @@ func (sc *scenario) redefineOnce(fin, fout *filterSpec) ([]string, *am.Func) {
 	return lines, nf
 }
 
+// plainFuncs: no run-once function and no scripted failure: a call leaves nothing behind on the function objects
+func plainFuncs(sc *scenario) bool {
+	for _, f := range sc.Funcs {
+		if f.Once || (f.Script != "ok" && f.Script != "") {
+			return false
+		}
+	}
+	return true
+}
+
 // vsetsSnapshot renders, per function object, the values its input and output sets currently hold.
 func (sc *scenario) vsetsSnapshot() []string {
 	var out []string
@@ -384,7 +410,7 @@ func genRedef(w *bufio.Writer, r *rng, id int) {
 	if id%3 == 0 {
 		// after everything else of this scenario (the probes rebuild the function objects)
 		defer func() {
-			fmt.Fprintf(w, "scn probe %d\nsibling %s\nbare %s\npassthru %s\ntwinsets %s\nend\n", id, siblingProbe(sc, sc.callArgs(false)), bareProbe(sc), passthruProbe(), twinSetsProbe())
+			fmt.Fprintf(w, "scn probe %d\nsibling %s\nbare %s\npassthru %s\ntwinsets %s\nreuse %s\nend\n", id, siblingProbe(sc, sc.callArgs(false)), bareProbe(sc), passthruProbe(), twinSetsProbe(), reuseProbe())
 		}()
 	}
 	if newFn == nil || sc.Subs {
@@ -457,6 +483,34 @@ func genRedef(w *bufio.Writer, r *rng, id int) {
 				defer func() { recover() }()
 				newFn.Call(outer...)
 			}()
+		}
+		if !burn && plainFuncs(sc) {
+			// an earlier, untraced call of the same redefined function with other values (for an interface-typed input:
+			// of another dynamic type): nothing of it may be left in the call that follows
+			var other []am.Arg
+			for i, v := range newFn.Input().Values() {
+				ty := tyID(v.Type)
+				if isIface(ty) {
+					impl := implementers(ty)
+					if len(impl) == 0 {
+						continue
+					}
+					ty = impl[(i+id)%len(impl)]
+				}
+				val := mkValue(ty, 6500+i, -1).Interface()
+				if v.Name != "" {
+					other = append(other, am.Named(v.Name, val))
+				} else {
+					other = append(other, am.Typed(val))
+				}
+			}
+			func() {
+				defer func() { recover() }()
+				newFn.Call(other...)
+			}()
+			for _, f := range sc.Funcs {
+				f.execs = 0
+			}
 		}
 		sc.events, sc.pops = nil, nil
 		am.VerifSetPopHook(func(h interface{}) { sc.pops = append(sc.pops, sc.hashName(h)) })
@@ -533,7 +587,7 @@ func nestOf(f *filterSpec) int {
 
 // ---------------------------------------------------------------- C10: Convert vs Call on an identity function
 
-var convTargets = []int{0, 1, 2, 3, 4, 5, tyI0, tyI1, tyI3, tyError, tyE0}
+var convTargets = []int{0, 1, 2, 3, 4, 5, tyI0, tyI1, tyI3, tyError, tyE0, tyPI0}
 
 func genConv(w *bufio.Writer, r *rng, id int) {
 	sc := genScenario(r, cfgGeneral)
@@ -549,6 +603,14 @@ func genConv(w *bufio.Writer, r *rng, id int) {
 	}
 	sc.Funcs[0] = &fnSpec{ID: 0, Form: "pos", OForm: "pos", Ins: []lab{{Ty: T}}, Outs: []lab{{Ty: T}}, Script: "identity"}
 	sc.Defaults = 0
+	if T == tyPI0 {
+		// the target is a pointer to an interface: a value of exactly that type is supplied, next to a value that
+		// merely implements the interface
+		sc.Opts = append(sc.Opts, optSpecC{Kind: "typed", Ty: tyPI0, Vid: 950}, optSpecC{Kind: "typed", Ty: 4, Vid: 951})
+		if r.chance(1, 3) {
+			sc.Opts = sc.Opts[len(sc.Opts)-1:] // only the implementer: the conversion is impossible
+		}
+	}
 	if errTarget {
 		if r.chance(1, 2) {
 			sc.Opts = append(sc.Opts, optSpecC{Kind: "typed", Ty: tyE0, Vid: 900})
@@ -993,13 +1055,30 @@ func bareProbe(sc *scenario) string {
 			}()
 			return outcomeOf(sc, res, pan)
 		}
-		before := class()
+		// (which error a failing call reports may depend on the order in which the requirements are resolved: the
+		// comparison is between success, error and panic)
+		coarse := func(s string) string {
+			if i := strings.Index(s, ":"); i > 0 {
+				return s[:i]
+			}
+			return s
+		}
+		before := coarse(class())
+		for k := 0; k < 2; k++ {
+			if sc.buildAll() != nil {
+				return
+			}
+			f = sc.Funcs[0].fn
+			if again := coarse(class()); again != before {
+				return // not determined without Redefine either
+			}
+		}
 		if sc.buildAll() != nil {
 			return
 		}
 		f = sc.Funcs[0].fn
 		f.Redefine()
-		after := class()
+		after := coarse(class())
 		if before == after {
 			verdict = "intact"
 		} else {
@@ -1046,6 +1125,40 @@ func wrapProbe(sc *scenario) string {
 			verdict = "err"
 		} else {
 			verdict = "ok"
+		}
+	}) {
+		verdict = "panic"
+	}
+	return verdict
+}
+
+// reuseProbe: one redefined function with an interface-typed input called several times with values of different
+// dynamic types: every call passes on the value it was given, nothing of an earlier call.
+func reuseProbe() string {
+	verdict := "skip"
+	if recovered(func() {
+		target, err := am.NewFunc(func(s I0) int { return vidOf(reflect.ValueOf(s)) })
+		if err != nil {
+			return
+		}
+		rf, err := target.Redefine()
+		if err != nil || rf == nil {
+			return
+		}
+		verdict = "intact"
+		vals := []interface{}{K4{ID: 1}, K5{ID: 2}, K6{ID: 3}, K4{ID: 4}, K8{ID: 5}}
+		for round := 0; round < 6 && verdict == "intact"; round++ {
+			for i, v := range vals {
+				res := rf.Call(am.Typed(v))
+				if res.Err() != nil {
+					verdict = "err"
+					return
+				}
+				if got, _ := res.Out(0).(int); got != i+1 {
+					verdict = fmt.Sprintf("stale:call_with_%d_passed_on_%d", i+1, got)
+					return
+				}
+			}
 		}
 	}) {
 		verdict = "panic"
